@@ -130,3 +130,37 @@ theorem Parser.opt_modOpt_modOpt_same (P : Parser) (r : ORef) (f g : Opt → Opt
   rw [Parser.opt_modOpt_same _ _ _ (ORef.valid_modOpt _ _ _ _ h), Parser.opt_modOpt_same _ _ _ h]
 
 end GoFlags
+
+namespace GoFlags
+
+/-- writing through `modOpt` either leaves an option as it was or applies `f` to it -/
+theorem Parser.opt_modOpt_cases (P : Parser) (r r' : ORef) (f : Opt → Opt) :
+    (P.modOpt r f).opt r' = P.opt r' ∨ (r = r' ∧ (P.modOpt r f).opt r' = f (P.opt r')) := by
+  by_cases h : r = r'
+  · subst h
+    by_cases hv : r.valid P
+    · right; exact ⟨rfl, Parser.opt_modOpt_same P r f hv⟩
+    · left
+      -- an invalid reference modifies nothing
+      unfold ORef.valid at hv
+      simp only [Parser.modOpt, Parser.opt]
+      by_cases hc : r.c < P.cmds.length
+      · rw [Parser.cmd_modCmd_same _ _ _ hc]
+        simp only
+        by_cases hg : r.g < (P.cmd r.c).groups.length
+        · rw [listModify_getD_same _ _ _ _ hg]
+          simp only
+          have ho : ¬ r.o < ((P.cmd r.c).groups.getD r.g {}).opts.length := fun ho => hv ⟨hc, hg, ho⟩
+          rw [listModify_of_le _ _ _ (by omega)]
+        · rw [listModify_of_le _ _ _ (by omega)]
+      · rw [Parser.modCmd_of_le _ _ _ (by omega)]
+  · left; exact Parser.opt_modOpt_ne P r r' f h
+
+/-- a field that `f` preserves is preserved by `modOpt` on every option -/
+theorem Parser.modOpt_preserves {α} (P : Parser) (r r' : ORef) (f : Opt → Opt) (proj : Opt → α)
+    (hf : ∀ o, proj (f o) = proj o) : proj ((P.modOpt r f).opt r') = proj (P.opt r') := by
+  rcases Parser.opt_modOpt_cases P r r' f with h | ⟨_, h⟩
+  · rw [h]
+  · rw [h, hf]
+
+end GoFlags
